@@ -17,7 +17,8 @@ def register(prop, TB):
     prop("C13", lean_props=["C13"], bins=["rt", "gentool"], streams=gen("C13"), oracle_tags=["C13", "C04", "C11"], trusted_base=tb + [
         "retained chunks are represented in the model by the field value they encode (Binary.readVal of the same bytes); the pointer/offset bookkeeping of the emitted code (__pilota_begin_ptr, __pilota_offset, get_bytes) is covered by T1 only",
         "requests marked hazard=D12 / hazard=D31 are checked by the oracle only"])
-    prop("C19", level="other", lean_props=["C19"], bins=["rt", "gentool"], streams=gen("C19"), oracle_tags=["C19", "C09"], trusted_base=tb + [
+    prop("C19", level="other", lean_props=["C19"], bins=["rt", "gentool", "pbrun"], streams=gen("C19") + [{"name": "C19e", "bin": "pbrun"}], oracle_tags=["C19", "C09"], trusted_base=tb + [
+        "emitted protobuf types (the pb track's corpus, harness/pbrun): observed only - every truncation and a fixed set of single-byte corruptions of valid encodings, live heap before/after each failing decode; the ledger model covers the Thrift templates only",
         "Rust's drop elaboration is not modelled; the ledger (TGen/Mem.lean) encodes its consequence for the templates: locals are released on early return, raw-pointer writes before set_len are not",
         "the counting global allocator of harness/genrun (live bytes before/after each failing decode, input buffer included)"],
         explanation="Ownership-ledger model of the emitted decode templates with machine-checked theorems (asynchronous decoders never leak, for all documents / inputs / protocol readers; the synchronous list arm leaks on a concrete witness), tied to the real emitted code by comparing, for every truncation point of valid encodings of every generated type, WHICH cuts leave live heap bytes behind (counting allocator) with the cuts the ledger predicts. The decisive runtime fact (what Rust actually frees) is observed, not proved: level other.")
@@ -26,7 +27,7 @@ def register(prop, TB):
         "the assembly model (PilotaModel/Build/Emit.lean) is an equivalent reformulation of write_items / pkg_tree / write_stream / generate_unique_name, not a structural copy; its canonical order and split-mode names are compared with real output on every run",
         "module names are ranked in byte order by the harness (bin/detsuite.py) before they reach the model",
         "rayon and per-process hash seeds are represented by an arbitrary-order parameter in the theorems and exercised by repeated fresh processes with RAYON_NUM_THREADS in {1,2,3,8,16}; shared mutable caches inside write_item are covered by the byte comparison only",
-        "workspace mode is not exercised (its generation step needs a cargo workspace on disk; the repository's own workspace tests are the ones dropped offline)"])
+        "workspace mode: generated into a directory holding an empty Cargo.toml, as the repository's own workspace tests do (their cargo build step, which needs the network, is not run)"])
     import compilesuite
     prop("C14", level="other", lean_props=["C14"], bins=["rt", "gentool"], streams=[], oracle_tags=["C14"], extra_steps=[compilesuite.step], trusted_base=TB + [
         "rustc (cargo check) is the judge of 'type-checks'; nothing about rustc is modelled",
